@@ -174,7 +174,7 @@ func (a *NilAnalysis) nonNil(fn *ssa.Function, v ssa.Value, f nilFacts) bool {
 			}
 		case *ssa.IndexAddr:
 			// element of a slice/array of pointers: non-nil by the producer rule (O2) / P1
-			if isElemContainer(ad.X.Type()) {
+			if isElemContainer(ad.X.Type()) && !elemIsPtrToBasic(ad.X.Type()) {
 				return true
 			}
 		}
@@ -1507,4 +1507,30 @@ func (a *NilAnalysis) escapedFieldAddrs() map[string]map[string]bool {
 	}
 	a.escF = out
 	return out
+}
+
+// elemIsPtrToBasic: a slice or array of pointers to a basic type ([]*string: optional values kept in a list, such
+// as a stack of colours that may be absent).  Nothing is assumed about the elements of such a container, and the
+// producer rule asks nothing of what is stored into it; its elements are nil-checked like any other nilable value.
+func elemIsPtrToBasic(t types.Type) bool {
+	var el types.Type
+	switch u := t.Underlying().(type) {
+	case *types.Slice:
+		el = u.Elem()
+	case *types.Pointer:
+		if arr, ok := u.Elem().Underlying().(*types.Array); ok {
+			el = arr.Elem()
+		}
+	case *types.Array:
+		el = u.Elem()
+	}
+	if el == nil {
+		return false
+	}
+	pt, ok := el.Underlying().(*types.Pointer)
+	if !ok {
+		return false
+	}
+	_, basic := pt.Elem().Underlying().(*types.Basic)
+	return basic
 }
